@@ -20,6 +20,7 @@
      IGNORE=@ first non-blank is a letter or #; item conversion: DataItem.tla.
    Left open by the document (flag `unspec`, such files are not judged):
      leading TAB, single trailing TAB, a comma next to a TAB, files without data rows,
+     blanks without a newline at the very end of the file,
      strings over the legal characters that are not Fortran reals.
 
    Design layer: ImplSplit transcribes pharmpy's separator regex  ' *, *| *[\t] *| +'
@@ -32,8 +33,9 @@ CONSTANTS MaxLen, MaxCols, Profile, EmitMod, EmitSel
 VARIABLES phase, ign, text, sc, result
 vars == <<phase, ign, text, sc, result>>
 
-Alphabet == {"1", "2", ".", "-", "+", "D", ",", "_", "T", "#", "A", "N"}
-            \cup (IF Profile >= 2 THEN {"Z"} ELSE {})
+Alphabet == IF Profile = 3 THEN {"Z", "1", ".", "-", ",", "_"}       \* long items: the 24 character limit
+            ELSE {"1", "2", ".", "-", "+", "D", ",", "_", "T", "#", "A", "N"}
+                 \cup (IF Profile >= 2 THEN {"Z"} ELSE {})
 Letters == {"A", "D", "E"}
 IgnModes == {"#", "A", "@"}     \* no IGNORE=c option / IGNORE=A / IGNORE=@
 
@@ -94,14 +96,15 @@ Scan(s, c) ==
 \* ---- end of file
 AtEOF(s) ==
     CASE s.mode = "BOL" -> IF ~s.lead.any THEN s
-                           ELSE Fail(s, IF s.lead.bad THEN "space before TAB" ELSE "blank line")
+                           ELSE IF s.lead.bad THEN Fail(s, "space before TAB")
+                           ELSE Flag(s, "blanks without newline at the end")     \* is that a (blank) line?  not judged
       [] s.mode = "ITEM" -> EndRow(s, Append(s.items, s.cur))
       [] s.mode = "SP" -> EndRow(s, s.items)
       [] s.mode = "COMMA" -> EndRow(s, Append(s.items, NULL))
       [] s.mode = "TAB" -> EndRow(Flag(s, "trailing TAB"), Append(s.items, NULL))
       [] s.mode = "COMMENT" -> [s EXCEPT !.mode = "BOL"]
 
-Feed(c) == /\ phase = "scan" /\ Len(text) < MaxLen /\ sc.err = ""
+Feed(c) == /\ phase = "scan" /\ Len(text) < MaxLen /\ sc.err = "" /\ c \in Alphabet
            /\ text' = Append(text, c) /\ sc' = Scan(sc, c)
            /\ UNCHANGED <<phase, ign, result>>
 FeedDigit == \E c \in Alphabet \cap (Digit \cup {"."}) : Feed(c)
@@ -124,6 +127,10 @@ FormOf(n, d, j) ==
     ELSE "NAME"
 \* the column name is the given name, for a synonym pair the NON-reserved name; anonymous DROP/SKIP has no name
 NameKind(f) == CASE f \in {"DROP", "SKIP"} -> "anonymous" [] f \in {"RES=SYN", "SYN=RES"} -> "synonym" [] OTHER -> "given"
+
+\* ---- the NULL=c option of $DATA: one character out of [0-9+-]; a digit is itself, + and - mean 0; default 0
+NullOpts == {"0", "1", "2", "-", "+"}
+NullValue(o) == CASE o = "1" -> 1 [] o = "2" -> 2 [] OTHER -> 0
 
 \* ---- conversion, padding, surplus
 Cell(row, j, d) ==
@@ -194,6 +201,7 @@ TokCode(c) == CASE c = "1" -> 1 [] c = "2" -> 2 [] c = "." -> 3 [] c = "-" -> 4 
 RECURSIVE Hash(_, _)
 Hash(s, h) == IF s = <<>> THEN h ELSE Hash(Tail(s), (h * 31 + TokCode(Head(s))) % 1000003)
 Selected == Hash(text, IF ign = "#" THEN 1 ELSE IF ign = "A" THEN 2 ELSE 3) % EmitMod = EmitSel
-Case == [ign |-> ign, text |-> text, err |-> sc.err, unspec |-> sc.unspec, items |-> sc.rows, table |-> result]
+Case == [ign |-> ign, text |-> text, err |-> sc.err, unspec |-> sc.unspec, items |-> sc.rows, table |-> result,
+         nulls |-> [o \in NullOpts |-> NullValue(o)]]
 EmitCase == (Done /\ Selected) => PrintT(<<"CASE", ToJson(Case)>>)
 =============================================================================
